@@ -1003,6 +1003,17 @@ func init() {
 	})
 	simple("schema-unknown-number-format", false, func(l *c04Loc) bool { return typed("integer")(l) || typed("number")(l) },
 		func(r *Rng, l *c04Loc) { l.obj["format"] = Pick(r, []string{"made-up", "int32", "double", "byte", "int64", "float"}) })
+	// formats registered by the application (the harness registers one name in each of the three registries)
+	simple("schema-registered-format", true, func(l *c04Loc) bool { return typed("integer")(l) || typed("number")(l) || typed("string")(l) }, func(r *Rng, l *c04Loc) {
+		l.obj["format"] = map[string]string{"integer": "x-int", "number": "x-num", "string": "x-str"}[fmt.Sprint(l.obj["type"])]
+		delete(l.obj, "example")
+		delete(l.obj, "default")
+	})
+	simple("schema-format-of-another-registry", false, func(l *c04Loc) bool { return typed("integer")(l) || typed("number")(l) || typed("string")(l) }, func(r *Rng, l *c04Loc) {
+		l.obj["format"] = map[string]string{"integer": "x-num", "number": "x-int", "string": "x-int"}[fmt.Sprint(l.obj["type"])]
+		delete(l.obj, "example")
+		delete(l.obj, "default")
+	})
 	simple("schema-known-format", true, typed("string"), func(r *Rng, l *c04Loc) {
 		delete(l.obj, "default")
 		delete(l.obj, "example")
@@ -1278,6 +1289,9 @@ func c04Directed() []C04Case {
 }
 
 func init() {
+	openapi3.DefineIntegerFormatValidator("x-int", openapi3.NewCallbackValidator(func(int64) error { return nil }))
+	openapi3.DefineNumberFormatValidator("x-num", openapi3.NewCallbackValidator(func(float64) error { return nil }))
+	openapi3.DefineStringFormatValidator("x-str", openapi3.NewCallbackValidator(func(string) error { return nil }))
 	runners["C04"] = func(seed uint64, n int, outDir string, replay string) {
 		var cases []C04Case
 		if replay != "" {
